@@ -26,6 +26,7 @@ import os
 import random
 import subprocess
 import sys
+from concurrent.futures import ThreadPoolExecutor
 from pathlib import Path
 
 from .. import PY, REPO, VERIF
@@ -159,18 +160,43 @@ def _validate_writer(ctx):
     ctx.log(f"7z writer validated against fixture: header round-trips byte-identically, {len(members)} entries, CRCs ok")
 
 
+def _tlc_jobs(ctx, pool):
+    """Theorem and sensitivity runs, started in the background and joined at the end of run()."""
+    mf, mm = 3, 3
+    jobs = [("SevenZip: reference addressing, all layouts <= 3 entries: file k -> content k", None, None,
+             pool.submit(run_tlc, "SevenZip", "SPECIFICATION Spec\n" + SZ_CONST % (mf, "")
+                         + "INVARIANT Faithful\nINVARIANT TypeOK\n", scratch=ctx.scratch, timeout=1200, workers=4))]
+    for d in ("AlwaysFirstPackStream", "EmptyStreamIsDirectory"):
+        jobs.append((f"SevenZip sensitivity: deviation {d} must violate Faithful", d, "Faithful",
+                     pool.submit(run_tlc, "SevenZip", "SPECIFICATION Spec\n" + SZ_CONST % (mf, f'"{d}"')
+                                 + "INVARIANT Faithful\n", scratch=ctx.scratch, expect_fail=True, timeout=900, workers=4)))
+    jobs.append(("Archive: reference member loop, MT_C10 lists <= 3: Inv_Members, Inv_Isolation (+ C09 invariants)",
+                 None, None, pool.submit(run_tlc, "Archive", "SPECIFICATION Spec\n" + BASE % ("MT_C10", mm, 1, "") + INVS,
+                                         scratch=ctx.scratch, timeout=1500, workers=4)))
+    for d in ("MemberErrorKillsArchive", "FolderErrorKillsArchive"):
+        jobs.append((f"Archive sensitivity: deviation {d} must violate Inv_Isolation", d, "Inv_Isolation",
+                     pool.submit(run_tlc, "Archive", "SPECIFICATION Spec\n" + BASE % ("MT_C10", 2, 1, f'"{d}"') + INVS,
+                                 scratch=ctx.scratch, expect_fail=True, timeout=900, workers=4)))
+    if ctx.thorough:
+        jobs.append(("Archive as-built (KF-C10-01): the deviation violates Inv_Isolation in exactly the predicted way",
+                     None, None,
+                     pool.submit(run_tlc, "Archive", "SPECIFICATION Spec\n" + BASE % ("MT_C10", 2, 1, '"FolderErrorKillsArchive"')
+                                 + INVS.replace("Inv_Isolation", "Inv_IsolationAsBuilt"), scratch=ctx.scratch, timeout=900,
+                                 workers=4)))
+    return jobs
+
+
+def _join_tlc(ctx, jobs):
+    for name, d, inv, fut in jobs:
+        r = fut.result()
+        ctx.ev.tlc(name, r, note="expected violation" if d else "")
+        if d and r.violated != inv:
+            raise MachineryError(f"sensitivity run with deviation {d}: expected {inv} violated, got {r.violated}")
+
+
 def _sz_part(ctx):
     ev, v = ctx.ev, ctx.v
     mf = 3
-    r = run_tlc("SevenZip", "SPECIFICATION Spec\n" + SZ_CONST % (mf, "") + "INVARIANT Faithful\nINVARIANT TypeOK\n",
-                scratch=ctx.scratch, timeout=1200)
-    ev.tlc("SevenZip: reference addressing, all layouts <= 3 entries: file k -> content k", r)
-    for d in ("AlwaysFirstPackStream", "EmptyStreamIsDirectory"):
-        rs = run_tlc("SevenZip", "SPECIFICATION Spec\n" + SZ_CONST % (mf, f'"{d}"') + "INVARIANT Faithful\n",
-                     scratch=ctx.scratch, expect_fail=True, timeout=900)
-        ev.tlc(f"SevenZip sensitivity: deviation {d} must violate Faithful", rs, note="expected violation")
-        if not rs.violated:
-            raise MachineryError(f"sensitivity run with deviation {d} did not fail")
     rg, arches = _sz_arches(ctx, mf)
     ev.tlc("SevenZipGen: archive layouts", rg)
     rng = random.Random(ctx.seed * 104729 + 5)
@@ -266,18 +292,6 @@ def _member_part(ctx):
     ev, v = ctx.ev, ctx.v
     thorough = ctx.thorough
     mm = 3
-    r = run_tlc("Archive", "SPECIFICATION Spec\n" + BASE % ("MT_C10", mm, 1, "") + INVS, scratch=ctx.scratch, timeout=1500)
-    ev.tlc("Archive: reference member loop, MT_C10 lists <= 3: Inv_Members, Inv_Isolation (+ C09 invariants)", r)
-    for d in ("MemberErrorKillsArchive", "FolderErrorKillsArchive"):
-        rs = run_tlc("Archive", "SPECIFICATION Spec\n" + BASE % ("MT_C10", 2, 1, f'"{d}"') + INVS, scratch=ctx.scratch,
-                     expect_fail=True, timeout=900)
-        ev.tlc(f"Archive sensitivity: deviation {d} must violate Inv_Isolation", rs, note="expected violation")
-        if rs.violated != "Inv_Isolation":
-            raise MachineryError(f"sensitivity run with deviation {d}: expected Inv_Isolation, got {rs.violated}")
-    if thorough:
-        ab = run_tlc("Archive", "SPECIFICATION Spec\n" + BASE % ("MT_C10", 2, 1, '"FolderErrorKillsArchive"')
-                     + INVS.replace("Inv_Isolation", "Inv_IsolationAsBuilt"), scratch=ctx.scratch, timeout=900)
-        ev.tlc("Archive as-built (KF-C10-01): the deviation violates Inv_Isolation in exactly the predicted way", ab)
     rg, cases = dump_cases(ctx, "MT_C10", mm, 0, "c10gen")
     ev.tlc("ArchiveGen: member lists (format x kinds)", rg)
     cases = [c for c in cases if c["hist"]["t"] == "Exhaust"
@@ -330,8 +344,12 @@ def _member_part(ctx):
 
 def run(ctx):
     _validate_writer(ctx)
+    pool = ThreadPoolExecutor(max_workers=3)
+    jobs = _tlc_jobs(ctx, pool)
     n_lay, n_rand = _sz_part(ctx)
     n_lists, n_arch = _member_part(ctx)
+    _join_tlc(ctx, jobs)
+    pool.shutdown()
     ctx.ev.set(rule="(a) every 7z layout enumerated by SevenZipGen (+ random larger layouts) written, read by the real "
                     "reader and validated by TLC; (b) every member list enumerated by ArchiveGen over MT_C10 x archive "
                     "variants (ZIP stored/deflated, TAR plain/gz/bz2/xz, 7z coder x folder layout x header encoding; all "
